@@ -320,6 +320,15 @@ func countSyscalls(c *c05Case, syscallName string) int {
 
 func TestC05(t *testing.T) {
 	col := collector("C05", ruleC05)
+	t.Run("short-file", func(t *testing.T) {
+		check(t, "C05", cases(24, 400), 0, func(rt *rapid.T) {
+			c := &c05Short{KeepBytes: rapid.SampledFrom([]int64{0, 1, 100, 4095, 4096, 4097, 8191, 8192, 8200, 12287, 12288, 12300, 16383}).Draw(rt, "keep")}
+			if f := runC05Short(c); f != nil {
+				violate(rt, "C05", "c05short", c, f)
+			}
+			col.Case(c.KeepBytes > 0, hashOf(c), func() interface{} { return c }, "short-data-file", "backend:"+run.Bbolt)
+		})
+	})
 	t.Run("reopen", func(t *testing.T) {
 		check(t, "C05", cases(600, 8000), ev.Scale(16, 24), func(rt *rapid.T) {
 			backend := rapid.SampledFrom([]string{run.Bbolt, run.Bbolt, run.Bbolt, run.BadgerDisk}).Draw(rt, "backend")
@@ -529,4 +538,71 @@ func TestC05(t *testing.T) {
 			}
 		})
 	})
+}
+
+// c05Short: the data file of a bbolt database cut to its first KeepBytes bytes - what a process
+// killed in the middle of the very first Open leaves behind (a fatal signal can end the
+// initial write of the first pages early; observed in a thorough run). No operation was ever
+// acknowledged, so the directory must open again, empty. The reopen runs in a child process
+// first: on a file with valid meta pages but missing data pages bbolt faults with SIGBUS,
+// which no recover() can turn into a verdict.
+type c05Short struct {
+	KeepBytes int64 `json:"keepbytes"`
+	Complete  bool  `json:"complete"` // the file was cut after the root bucket had been committed too
+}
+
+func runC05Short(c *c05Short) *sm.Fail {
+	bad := func(clause, f string, a ...interface{}) *sm.Fail {
+		return &sm.Fail{Property: "C05", Clause: clause, Detail: fmt.Sprintf("[data file cut to %d bytes] ", c.KeepBytes) + fmt.Sprintf(f, a...)}
+	}
+	dir := run.NewScratchDir("C05k")
+	defer os.RemoveAll(dir)
+	dbdir := filepath.Join(dir, "db")
+	os.MkdirAll(dbdir, 0o755)
+	h, err := run.Open(run.Bbolt, dbdir)
+	if err != nil {
+		return bad("harness", "open: %v", err)
+	}
+	h.Close()
+	files, _ := filepath.Glob(filepath.Join(dbdir, "*"))
+	if len(files) != 1 {
+		return bad("harness", "expected one data file, found %v", files)
+	}
+	if err := os.Truncate(files[0], c.KeepBytes); err != nil {
+		return bad("harness", "truncate: %v", err)
+	}
+	prog := filepath.Join(dir, "program.json")
+	os.WriteFile(prog, []byte("[]"), 0o644)
+	logPath := filepath.Join(dir, "log")
+	cmd := exec.Command(workerBin(), "-backend", run.Bbolt, "-dir", dbdir, "-program", prog, "-log", logPath)
+	var stderr strings.Builder
+	cmd.Stderr = &stderr
+	werr := cmd.Run()
+	lg, _ := os.ReadFile(logPath)
+	if werr != nil || !strings.Contains(string(lg), "O") {
+		msg := stderr.String()
+		if i := strings.Index(msg, "\ngoroutine "); i > 0 {
+			msg = msg[:i]
+		}
+		return bad("reopen", "the database does not open after a kill during its first Open: %v %s", werr, clipStr(msg, 400))
+	}
+	h, err = run.Open(run.Bbolt, dbdir)
+	if err != nil {
+		return bad("reopen", "the database does not open: %v", err)
+	}
+	defer h.Close()
+	if msg := verifyState(h, model.New()); msg != "" {
+		return bad("durability", "nothing was ever written, but after reopening: %s", msg)
+	}
+	return nil
+}
+
+func init() {
+	replayers["c05short"] = func(raw json.RawMessage) *sm.Fail {
+		var c c05Short
+		if err := json.Unmarshal(raw, &c); err != nil {
+			return &sm.Fail{Property: "C05", Clause: "replay", Detail: err.Error()}
+		}
+		return runC05Short(&c)
+	}
 }
